@@ -395,14 +395,30 @@ def run_c22(ctx, replay_path=None):
 
 PROPS = {
     "C22": dict(
-        theorems=[],
-        witnesses=[],
+        theorems=["BluetoeModel.Timing.ppm_bounds",
+                  "BluetoeModel.Timing.sca_is_sum_of_both_sides",
+                  "BluetoeModel.Timing.window_contains_anchor",
+                  "BluetoeModel.Timing.window_defined",
+                  "BluetoeModel.Timing.window_widening_ge",
+                  "BluetoeModel.Timing.event_at_anchor_plus_l_intervals",
+                  "BluetoeModel.Timing.event_at_anchor_plus_k_intervals",
+                  "BluetoeModel.Timing.supervision_only_after_timeout",
+                  "BluetoeModel.Timing.supervision_timeout_enforced",
+                  "BluetoeModel.Timing.connect_only_if_valid_partial",
+                  "BluetoeModel.Timing.valid_connect_accepted",
+                  "BluetoeModel.Timing.refused_connect_keeps_advertising",
+                  "BluetoeModel.Timing.update_only_if_valid_partial"],
+        witnesses=["BluetoeModel.Timing.window_widening_witness",
+                   "BluetoeModel.Timing.connect_only_if_valid_witness"],
         run=run_c22,
         level="proof",
-        technique="",
-        level_text="",
-        level_note="",
+        technique="Lean 4 proofs over all parameters, sleep clock accuracies and histories of lost events (32-bit delta_time arithmetic with explicit assertion results, induction over the number of lost events) + differential correspondence with the real link_layer<> on test_radio and an independent monitor",
+        level_text="Theorems for every CONNECT_IND / LL_CONNECTION_UPDATE_IND field value, every SCA and device accuracy, every number of lost events: ppm() is floor(u*p/10^6) or one less without 64-bit overflow; the window given to the radio covers the anchor (or the transmit window) and is widened by at least floor(T*sca/10^6)-1 us at either edge; after an event the next one is planned l intervals later (1 <= l <= latency+1) and after k lost events k intervals more, with the window for exactly that distance; timeout() ends the link only by the procedure timer, at timeSince >= supervision timeout, at the sixth lost event of a never established connection, or through a refused update at its instant (and always ends it at timeSince >= supervision timeout); a CONNECT_IND / update is accepted iff the Core-spec validity predicate holds or WinSize = Interval in 6..8 (known finding); a refused CONNECT_IND leaves the next advertising PDU scheduled. The model is the patched code (fixes timing-01, timing-02).",
+        level_note="Trusted: Lean kernel + propext/Quot.sound/Classical.choice; model = code as far as the differential check samples it (every state line after every radio event, exhaustive boundary grid of the five parameters in the thorough tier). Full-strength 'widened by at least the drift' is false by < 1.0003 us (window_widening_witness, known finding, pinned by repository tests); 'only valid parameters' is false for WinSize = Interval (connect_only_if_valid_witness, known finding, pinned by repository tests). Not proved: a global invariant that no delta_time assertion can fail in any history (the theorems carry the needed range hypotheses, which valid parameters satisfy; the harness runs with assertions enabled and ASan/UBSan). CRC errors / what counts as a 'valid packet' is the radio's business: end_event() is taken as 'a valid packet was received'.",
         design_ref="§5 C22",
-        assumptions=[],
+        assumptions=["test_radio as the scheduled radio; its own time line is not compared (the harness reads the arguments of schedule_connection_event)",
+                     "channel map and hop of the CONNECT_IND valid (C20), central passes the filter policy (C25/C26)",
+                     "peripheral latency configurations: latency fully used / ignored (listen always); the other options are C23",
+                     "no LL procedure of the peripheral running except through the `proc` poke of procedure_timeout_"],
     ),
 }
